@@ -159,6 +159,8 @@ impl byteseries::Decoder for RawDecoder {
 #[derive(Debug, Clone)]
 struct BytesResampler {
     p: usize,
+    /// `caches=..!`: `encode_item` hands back two bytes more than the payload size (the library takes the payload-size prefix)
+    fat: bool,
 }
 
 impl byteseries::Decoder for BytesResampler {
@@ -179,7 +181,11 @@ impl byteseries::Decoder for BytesResampler {
 impl byteseries::Encoder for BytesResampler {
     type Item = Vec<u64>;
     fn encode_item(&mut self, item: &Vec<u64>) -> Vec<u8> {
-        item.iter().map(|v| *v as u8).collect()
+        let mut out: Vec<u8> = item.iter().map(|v| *v as u8).collect();
+        if self.fat {
+            out.extend_from_slice(&[0xEE, 0xEE]);
+        }
+        out
     }
 }
 
@@ -241,6 +247,7 @@ enum Op {
         p: usize,
         hdr: Vec<u8>,
         caches: Vec<usize>,
+        fat: bool,
         cb: Cb,
         /// pass the path with the `.byteseries` extension (optional 7th token `ext=1`)
         ext: bool,
@@ -253,6 +260,7 @@ enum Op {
         chain: bool,
         hdr: Hdr,
         caches: Vec<usize>,
+        fat: bool,
         cb: Cb,
         ext: bool,
     },
@@ -314,7 +322,7 @@ fn parse_hex(s: &str) -> Option<Vec<u8>> {
 fn parse_name(s: &str) -> Option<String> {
     let ok = !s.is_empty()
         && s.bytes()
-            .all(|b| b.is_ascii_lowercase() || b.is_ascii_digit());
+            .all(|b| b.is_ascii_alphanumeric() || b == b'_');
     ok.then(|| s.to_string())
 }
 
@@ -389,7 +397,8 @@ fn parse_op_line(line: &str) -> Option<Line> {
             name: parse_name(name)?,
             p: parse_num(p.strip_prefix("p=")?)?,
             hdr: parse_hex(hdr.strip_prefix("hdr=")?)?,
-            caches: parse_caches(caches.strip_prefix("caches=")?)?,
+            caches: parse_caches(caches.strip_prefix("caches=")?.trim_end_matches('!'))?,
+            fat: caches.ends_with('!'),
             cb: parse_cb(cb.strip_prefix("cb=")?)?,
             ext: false,
         },
@@ -397,7 +406,8 @@ fn parse_op_line(line: &str) -> Option<Line> {
             name: parse_name(name)?,
             p: parse_num(p.strip_prefix("p=")?)?,
             hdr: parse_hex(hdr.strip_prefix("hdr=")?)?,
-            caches: parse_caches(caches.strip_prefix("caches=")?)?,
+            caches: parse_caches(caches.strip_prefix("caches=")?.trim_end_matches('!'))?,
+            fat: caches.ends_with('!'),
             cb: parse_cb(cb.strip_prefix("cb=")?)?,
             ext: match ext.strip_prefix("ext=")? {
                 "0" => false,
@@ -418,7 +428,8 @@ fn parse_op_line(line: &str) -> Option<Line> {
                 h if h.ends_with(">any") => Hdr::ThenAny(parse_hex(&h[..h.len() - 4])?),
                 h => Hdr::Bytes(parse_hex(h)?),
             },
-            caches: parse_caches(caches.strip_prefix("caches=")?)?,
+            caches: parse_caches(caches.strip_prefix("caches=")?.trim_end_matches('!'))?,
+            fat: caches.ends_with('!'),
             cb: parse_cb(cb.strip_prefix("cb=")?)?,
             ext: match ext.strip_prefix("ext=")? {
                 "0" => false,
@@ -662,7 +673,7 @@ const PLAIN: HangCtx = HangCtx::Plain;
 /// Finish a builder (any of its type states that can `open`): optional caches,
 /// optional corruption callback, then `open(path)`.
 macro_rules! finish_builder {
-    ($builder:expr, $caches:expr, $cb:expr, $resampler_p:expr, $path:expr) => {{
+    ($builder:expr, $caches:expr, $cb:expr, $resampler_p:expr, $path:expr, $fat:expr) => {{
         let b = $builder;
         if $caches.is_empty() {
             // the default `EmptyResampler` stays in place
@@ -680,7 +691,7 @@ macro_rules! finish_builder {
                     bucket_size: *bucket,
                 })
                 .collect();
-            let b = b.with_downsampled_cache(BytesResampler { p: $resampler_p }, configs);
+            let b = b.with_downsampled_cache(BytesResampler { p: $resampler_p, fat: $fat }, configs);
             let b = match $cb {
                 Cb::None => b,
                 Cb::Deny => b.with_callback_on_recoverable_corruption(Box::new(|| false)),
@@ -771,6 +782,7 @@ impl State {
         p: usize,
         hdr: &[u8],
         caches: &[usize],
+        fat: bool,
         cb: Cb,
         ext: bool,
     ) -> String {
@@ -786,7 +798,7 @@ impl State {
                 .payload_size(p)
                 .create_new(true)
                 .with_header(hdr);
-            finish_builder!(b, caches, cb, p, &path)
+            finish_builder!(b, caches, cb, p, &path, fat)
         });
         self.finish_open(res, classify_new)
     }
@@ -798,6 +810,7 @@ impl State {
         chain: bool,
         hdr: &Hdr,
         caches: &[usize],
+        fat: bool,
         cb: Cb,
         ext: bool,
     ) -> String {
@@ -818,7 +831,7 @@ impl State {
                     Hdr::AnyThen(bytes) => b.with_any_header().with_header(bytes),
                     Hdr::ThenAny(bytes) => b.with_header(bytes).with_any_header(),
                 };
-                finish_builder!(b, caches, cb, p, &path)
+                finish_builder!(b, caches, cb, p, &path, fat)
             }),
             None => {
                 let resampler_p = if caches.is_empty() {
@@ -841,7 +854,7 @@ impl State {
                         Hdr::AnyThen(bytes) => b.with_any_header().with_header(bytes),
                         Hdr::ThenAny(bytes) => b.with_header(bytes).with_any_header(),
                     };
-                    finish_builder!(b, caches, cb, resampler_p, &path)
+                    finish_builder!(b, caches, cb, resampler_p, &path, fat)
                 })
             }
         };
@@ -959,7 +972,7 @@ impl State {
             Ok(p) => p,
             Err(result) => return result,
         };
-        let mut resampler = BytesResampler { p };
+        let mut resampler = BytesResampler { p, fat: false };
         // more foreign entries than the 2n samples one call may add
         let pre = if n < 50_000 { 2 * n + 1 } else { 2 };
         let mut ts = vec![Self::SENTINEL_TS; pre];
@@ -1066,18 +1079,20 @@ impl State {
                 p,
                 hdr,
                 caches,
+                fat,
                 cb,
                 ext,
-            } => self.op_new(name, *p, hdr, caches, *cb, *ext),
+            } => self.op_new(name, *p, hdr, caches, *fat, *cb, *ext),
             Op::Open {
                 name,
                 p,
                 chain,
                 hdr,
                 caches,
+                fat,
                 cb,
                 ext,
-            } => self.op_open(name, *p, *chain, hdr, caches, *cb, *ext),
+            } => self.op_open(name, *p, *chain, hdr, caches, *fat, *cb, *ext),
             Op::Close => self.op_close(),
             Op::Push { ts, payload } => self.push(PLAIN, *ts, payload),
             Op::PushSeq {
